@@ -1,8 +1,8 @@
 /-
 Model of the comment iterator the formatter uses to recover comments from the source text
 between two AST spans:  /repo/base/src/source.rs  `CommentIter` (struct :343),
-`Iterator::next` (:350-387) and `DoubleEndedIterator::next_back` (:390-440), as the code is
-after the lead's `fix:` commits 9929c7c and 6d00c5c.
+`Iterator::next` (:350-387) and `DoubleEndedIterator::next_back` (:388-425), as the code is
+after the lead's `fix:` commits 9929c7c and 9c4447b.
 
 The iterator state is the remaining `&str` (`self.src`), modelled as `List Char`.  Every Rust
 operation that can panic (slice `s[a..]`, `s[..b]`, `usize` subtraction, `.unwrap()`) is
@@ -53,13 +53,6 @@ def firstLine? (s : List Char) : Option (List Char) :=
 
 /-- The text after the last `'\n'` of `s` (all of `s` if there is none). -/
 def afterLastNl (s : List Char) : List Char := (s.reverse.takeWhile (· != '\n')).reverse
-
-/-- `s.lines().next_back()` (`SplitInclusive::next_back` drops a trailing empty piece, then
-    `LinesMap` strips `"\n"` and then one `"\r"` — only if the piece ended in `"\n"`). -/
-def lastLine? (s : List Char) : Option (List Char) :=
-  if s.isEmpty then none
-  else if endsWith ['\n'] s then some (stripCr (afterLastNl s.dropLast))
-  else some (afterLastNl s)
 
 /-- `s.find(pat)`: char index of the first occurrence. -/
 def findSub (pat : List Char) : List Char → Option Nat
@@ -142,42 +135,39 @@ def next (src : List Char) : R :=
       | some r => .yield [] r
     else .stop s                                                           -- :380
 
-/-- `CommentIter::next_back` (source.rs:390-440). -/
+/-- `CommentIter::next_back` (source.rs:388-425, after fix commit 9c4447b). -/
 def nextBack (src : List Char) : R :=
-  if src.isEmpty then .stop src                                            -- :392
+  if src.isEmpty then .stop src                                            -- :389
   else
-    let s := trimEnd wsNoNl src                                            -- :395-397
-    if endsWith ['\n'] s then                                              -- :398
-      match sliceTo (s.length - 1) s with                                  -- :399 src[..len-1]
+    let s := trimEnd wsNoNl src                                            -- :392-394
+    if endsWith ['\n'] s then                                              -- :395
+      let nlLen := if endsWith ['\r', '\n'] s then 2 else 1                -- :396
+      match checkedSub s.length nlLen with                                 -- :397 len - newline_len
       | none => .panic
-      | some body =>
-        match lastLine? body with                                          -- .lines().next_back()?
-        | none => .stop s
-        | some cl =>
-          let trimmed := cl.dropWhile isWs                                 -- :400 trim_start()
-          let nlLen := if endsWith ['\r', '\n'] s then 2 else 1            -- :402
-          match sliceTo (s.length - nlLen) s with                          -- :403
-          | none => .panic
-          | some s1 =>
-            if isLineComment trimmed then                                  -- :405
-              match checkedSub (byteLen s1) (byteLen trimmed) with         -- :408 len - trimmed.len()
+      | some n =>
+        match sliceTo n s with                                             -- :397 src[..n]
+        | none => .panic
+        | some wn =>
+          if wn.isEmpty then .stop s                                       -- :398 return None
+          else
+            let cl := afterLastNl wn                                       -- :404 rsplit('\n').next()
+            let trimmed := cl.dropWhile isWs                               -- :405 trim_start()
+            if isLineComment trimmed then                                  -- :407
+              match checkedSub (byteLen wn) (byteLen trimmed) with         -- :409 len - trimmed.len()
               | none => .panic
               | some k =>
-                match takeBytes s1 k with                                  -- :408 src[..k]
+                match takeBytes wn k with                                  -- :409 src[..k]
                 | none => .panic
-                | some s2 =>
-                  let s3 := trimEnd wsNoNl s2                              -- :409
-                  if endsWith ['\r', '\n'] s3 then                         -- :410
-                    .yield trimmed (s3.take (s3.length - 2))
-                  else if endsWith ['\n'] s3 then                          -- :412
-                    .yield trimmed (s3.take (s3.length - 1))
-                  else .yield trimmed s3
-            else .yield [] s1                                              -- :417
-    else if endsWith ['*', '/'] s then                                     -- :419
-      match rfindSub ['/', '*'] s with                                     -- :420
-      | some i => .yield (s.drop i) (s.take i)                             -- split_at(i)
+                | some s2 => .yield trimmed (trimEnd wsNoNl s2)            -- :410
+            else .yield [] wn                                              -- :413
+    else if endsWith ['*', '/'] s then                                     -- :415
+      match rfindSub ['/', '*'] s with                                     -- :416
+      | some i =>
+        match sliceTo i s, sliceFrom i s with                              -- split_at(i)
+        | some r, some c => .yield c r
+        | _, _ => .panic
       | none => .stop s
-    else .stop s                                                           -- :427
+    else .stop s                                                           -- :422
 
 /-- Outcome of draining an iterator. -/
 inductive Run where
